@@ -980,6 +980,29 @@ func c13GenDir(r *rand.Rand) ([]c13Ent, c13DirInfo) {
 			decoy()
 		}
 	}
+	// the files that usually sit beside a marker (ignore files, version pins, tool configuration): they announce nothing by
+	// themselves and take nothing away from what the marker announces
+	companions := map[string][]string{
+		"Dockerfile": {".dockerignore"}, "docker-compose.yml": {".dockerignore", ".env"}, "docker-compose.yaml": {".dockerignore"},
+		"package.json": {".npmignore", ".npmrc", ".nvmrc", ".eslintrc.json", ".prettierrc"}, ".git": {".gitignore", ".gitattributes", ".gitmodules"},
+		"go.mod": {"go.work", ".golangci.yml"}, "requirements.txt": {".python-version", ".flake8"}, "pyproject.toml": {".python-version"},
+		"Gemfile": {".ruby-version", ".rubocop.yml"}, "Cargo.toml": {"rust-toolchain", ".rustfmt.toml"}, "pom.xml": {".mvn", "mvnw"},
+		"Makefile": {".make.cache"}, "CMakeLists.txt": {".clang-format"},
+	}
+	have = map[string]bool{}
+	for _, e := range ents {
+		have[e.Name] = true
+	}
+	for _, e := range append([]c13Ent(nil), ents...) {
+		if cs, ok := companions[e.Name]; ok && r.Intn(2) == 0 {
+			for _, c := range cs {
+				if !have[c] && r.Intn(2) == 0 {
+					have[c] = true
+					ents = append(ents, c13Ent{Name: c, Data: []byte("*\n")})
+				}
+			}
+		}
+	}
 	return ents, info
 }
 
